@@ -12,15 +12,21 @@ import sys
 
 P, K = sys.argv[1], sys.argv[2]
 CHECKS = [P] + sys.argv[3:]
-WT = f"/tmp/seed_{P}/wt"
-SRC = f"/tmp/seed_{P}/out/{K}"
-DST = f"/verif/seeded/{P}_{K}"
+ROUND = os.environ.get("SEED_ROUND", "")          # "" = first round (/tmp/seed_<P>), "2" = second round (/tmp/seed2_<P>)
+WT = f"/tmp/seed{ROUND}_{P}/wt"
+SRC = f"/tmp/seed{ROUND}_{P}/out/{K}"
+DST = f"/verif/seeded/{P}_{'r' + ROUND + '_' if ROUND else ''}{K}"
 
 
 def sh(cmd, **kw):
     return subprocess.run(cmd, shell=True, stdout=subprocess.PIPE, stderr=subprocess.STDOUT, text=True, **kw)
 
 
+if not os.path.isdir(WT):        # scratch worktrees are removed when a round is done; recreate on demand
+    os.makedirs(os.path.dirname(WT), exist_ok=True)
+    sh(f"git -C /repo worktree prune; git -C /repo worktree add --detach {WT} HEAD")
+if not os.path.isdir(SRC) and os.path.isdir(DST):      # re-test a kept change from /verif/seeded
+    SRC = DST
 sh(f"git -C {WT} checkout -- . && git -C {WT} clean -fdq")
 base = sh(f"git -C /repo rev-parse --short HEAD").stdout.strip()
 wt_head = sh(f"git -C {WT} rev-parse --short HEAD").stdout.strip()
